@@ -138,6 +138,14 @@ func genProjDir(t *rapid.T) string {
 	return rapid.SampledFrom(projDirPool).Draw(t, "proj_dir")
 }
 
+// genOutputs: where standard output and error go; mostly pipes, now and then regular files.
+func genOutputs(t *rapid.T) string {
+	if rapid.IntRange(0, 3).Draw(t, "outputs_to_files") != 0 {
+		return ""
+	}
+	return "files"
+}
+
 func genInvoke(t *rapid.T) string {
 	if rapid.IntRange(0, 2).Draw(t, "odd_invocation") != 0 {
 		return ""
